@@ -210,13 +210,9 @@ func (f *File) WriteAt(p []byte, off int64) (int, error) {
 	}
 	return f.File.WriteAt(p, off)
 }
-func (f *File) WriteString(s string) (int, error) {
-	_, k := f.fs.rec(Event{Op: "f.WriteString", Name: f.name, Data: []byte(s)})
-	if k == "err" {
-		return 0, ErrInjected
-	}
-	return f.File.WriteString(s)
-}
+
+// WriteString is a write(2) like Write; it is recorded and faulted as one.
+func (f *File) WriteString(s string) (int, error) { return f.Write([]byte(s)) }
 func (f *File) Truncate(size int64) error {
 	_, k := f.fs.rec(Event{Op: "f.Truncate", Name: f.name, N: int(size)})
 	if k == "err" {
